@@ -8,10 +8,12 @@ fi
 git apply "$patch"
 git status --short | grep -v _version
 cd /verif
+mkdir -p .work/evidence_backup && cp evidence/*.json .work/evidence_backup/ 2>/dev/null   # evidence of mutant runs is never kept
 for c in "$@"; do
   all=$(./check "$c" --tier quick 2>/dev/null)
   nv=$(echo "$all" | grep -c "^VIOLATION")
   echo "== $c :: violations=$nv :: $(echo "$all" | grep "^VIOLATION" | head -2 | cut -c1-120 | tr '\n' ' ')"
 done
+cp /verif/.work/evidence_backup/*.json /verif/evidence/ 2>/dev/null
 cd /repo && git checkout -- . && git status --short | grep -v _version
 cd /verif && for t in registry tables tokens effects; do [ -f tools/translate/gen_$t.py ] && PYTHONPATH=/repo /venv/bin/python tools/translate/gen_$t.py >/dev/null 2>&1; done
